@@ -853,7 +853,7 @@ TickMain(L0) ==     \* everything after the action-queue early return
 RECURSIVE ExtendWrap(_, _, _)
 ExtendWrap(q, evs, cap) == IF evs = <<>> THEN q ELSE ExtendWrap(PushBackWrap(q, Head(evs), cap).q, Tail(evs), cap)
 Chv2Step(L) ==
-  LET t == CvTick(L.chv2, Opts.chv2, Opts.chords_v2_min_idle, CurrentLayer(L))
+  LET t == CvTick(L.chv2, Opts.chv2, Opts.chords_v2_min_idle, CurrentLayer(L), Bug)
       g == CvGetAction(t.cv)
       L1 == [L EXCEPT !.queue = ExtendWrap(@, t.dq, Caps.queue), !.chv2 = g.cv]
       L2 == IF g.some
